@@ -195,7 +195,7 @@ func (t *Taint) Run(sources []ssa.Value) {
 						for _, ld := range t.fieldLoads(fld) {
 							fn := valueFunc(ld)
 							work = append(work, tstate{fn, ld, []ssa.Value{ld}, st.depth + 1,
-								append(append([]string{}, st.trail...), "stored unguarded into field "+fld.Name()+" at "+t.C.Rel(x.Pos())+", loaded at "+t.C.Rel(ld.Pos()))})
+								append(append([]string{}, st.trail...), "stored unguarded into field "+FieldName(fld)+" at "+t.C.Rel(x.Pos())+", loaded at "+t.C.Rel(ld.Pos()))})
 						}
 					}
 				}
